@@ -914,6 +914,35 @@ def x_instr_dump(co, opc, max_code=None, dup_lines=False):
     except Exception as e:
         res["shift_bad"] = ["raised %s: %s" % (type(e).__name__, e)]
     try:
+        # Bytecode(co, first_line=N) renumbers the listing; it must not touch the code object
+        if isinstance(getattr(co, "co_firstlineno", None), int) and "linestarts" in res and len(code) <= 1200:
+            before_first = co.co_firstlineno
+            list(x.bytecode.Bytecode(co, opc, first_line=before_first + 5))
+            after = [[a, b] for a, b in opc.findlinestarts(co)]
+            if co.co_firstlineno != before_first or after != res["linestarts"]:
+                res.setdefault("shift_bad", [])
+                res["shift_bad"] = list(res.get("shift_bad") or []) + ["Bytecode(first_line=) altered the code object"]
+                try:
+                    co.co_firstlineno = before_first
+                except Exception:
+                    pass
+        # the per-offset entry point given the exception table marks handler targets like the iterator does
+        if opc.version_tuple >= (3, 11) and getattr(co, "co_exceptiontable", None) and len(code) <= 1200:
+            entries = x.bytecode.parse_exception_table(co.co_exceptiontable) if hasattr(x.bytecode, "parse_exception_table") else None
+            if entries:
+                bad = None
+                for e in entries[:6]:
+                    tgt = e.target if hasattr(e, "target") else e[2]
+                    got_i = list(x.bytecode.get_logical_instruction_at_offset(code, tgt, opc, varnames=co.co_varnames, names=co.co_names,
+                                                                             constants=co.co_consts, cells=co.co_cellvars + co.co_freevars,
+                                                                             exception_entries=entries))
+                    if got_i and not got_i[0].is_jump_target:
+                        bad = "handler target %d not flagged by get_logical_instruction_at_offset(exception_entries=...)" % tgt
+                        break
+                res["direct_bad"] = bad
+    except Exception as e:
+        res["direct_bad"] = "raised %s: %s" % (type(e).__name__, e)
+    try:
         # metamorphic: the same code object with every local renamed resolves LOAD_FAST & co. to the new names
         if hasattr(co, "replace") and getattr(co, "co_varnames", None) and opc.version_tuple >= (3, 0) and len(code) <= 400:
             new = tuple((n_ + "_r") if isinstance(n_, str) else n_ for n_ in co.co_varnames)
